@@ -216,19 +216,6 @@ Proof.
   generalize (pn_kids p) as l. induction l as [|[nm c] rest IHl]; [apply neutral_ret|].
   apply neutral_bind; [apply IH|intros _; exact IHl].
 Qed.
-Lemma neutral_notify_name_change fuel : forall n, neutral (notify_name_change fuel n).
-Proof.
-  induction fuel as [|k IH]; intros n; cbn [notify_name_change]; [apply neutral_panic|].
-  apply neutral_bind; [apply neutral_the_node|intros p].
-  apply neutral_bind.
-  - generalize (pn_refs p) as l. induction l as [|[r nm] rest IHl]; [apply neutral_ret|].
-    apply neutral_bind; [apply neutral_the_ref|intros fr].
-    destruct (fr_parent fr); [|apply neutral_panic].
-    apply neutral_bind; [apply neutral_the_ref|intros pfr].
-    apply neutral_bind; [apply neutral_backend|intros _; exact IHl].
-  - intros _. generalize (pn_kids p) as l. induction l as [|[nm c] rest IHl]; [apply neutral_ret|].
-    apply neutral_bind; [apply IH|intros _; exact IHl].
-Qed.
 (** removeWithName without a callback *)
 Lemma neutral_rwn_none {A} n (k : M A) : neutral k -> forall rs, neutral (rwn_loop n None rs k).
 Proof.
@@ -1263,6 +1250,107 @@ Proof.
   intros Hm Hf. change s with (true && s). eapply led_bind0; [apply led_neutral0; exact Hm|exact Hf].
 Qed.
 
+Lemma led_weaken_safe' {A} K (m : M A) own post (s s' : bool) : led K m own post s -> (s' = true -> s = true) -> led K m own post s'.
+Proof. intros H Hs. eapply led_conseq; [exact H|reflexivity|reflexivity|exact Hs]. Qed.
+Lemma led_neutral0' {A} K (m : M A) post : neutral m -> (forall a, post a = d0) -> led K m d0 post true.
+Proof.
+  intros H Hp. eapply led_conseq; [apply led_neutral; [exact H|apply nonneg_d0]|reflexivity| |auto]. intros a x. now rewrite Hp.
+Qed.
+
+Fixpoint dsum (l : list refid) : delta := match l with [] => d0 | r :: t => dadd (d1 r) (dsum t) end.
+Lemma nonneg_dsum l : nonneg (dsum l).
+Proof. induction l as [|r t IH]; cbn; [apply nonneg_d0|apply nonneg_add; [apply nonneg_d1|exact IH]]. Qed.
+Lemma dsum_app a b x : dsum (a ++ b)%list x = (dsum a x + dsum b x)%Z.
+Proof. induction a as [|r t IH]; cbn; unfold dadd, d0 in *; [lia|rewrite IH; lia]. Qed.
+
+Lemma led_frame {A} K (m : M A) own post s rest :
+  led K m own post s -> nonneg rest -> led K m (dadd own rest) (fun a => dadd (post a) rest) s.
+Proof.
+  intros Hm Hr F w o w' HF HK HL E.
+  assert (HF' : nonneg (dadd rest F)) by (apply nonneg_add; assumption).
+  assert (HK' : dle K (dadd rest F)) by (intros x; unfold dadd; specialize (HK x); specialize (Hr x); lia).
+  assert (HL' : L (dadd own (dadd rest F)) (w_st w)) by (eapply L_ext; [|exact HL]; intros x; unfold dadd; lia).
+  destruct (Hm _ _ _ _ HF' HK' HL' E) as [N1 R1]. split; [exact N1|]. destruct o.
+  - eapply L_ext; [|exact R1]. intros x; unfold dadd; lia.
+  - intros Hs. eapply L_drop_own; [exact Hr|exact HF|]. apply R1, Hs.
+Qed.
+Lemma led_ret_eq {A} K (a : A) own (post : A -> delta) : (forall x, post a x = own x) -> led K (ret a) own post true.
+Proof. intros Hp F w o w' HF HK HL E. inversion E; subst. split; [lia|]. eapply L_ext; [|exact HL]. intros x; unfold dadd; now rewrite Hp. Qed.
+Lemma led_nbind' {A B} K (m : M A) (f : A -> M B) own post s :
+  neutral m -> nonneg own -> (forall a, led K (f a) own post s) -> led K (bind m f) own post s.
+Proof.
+  intros Hm Ho Hf. eapply led_weaken_safe'; [eapply led_bind0; [apply led_neutral; [exact Hm|exact Ho]|exact Hf]|].
+  intros H. rewrite H. reflexivity.
+Qed.
+
+Lemma led_notify_name_change K fuel : forall n, led K (notify_name_change fuel n) d0 dsum true.
+Proof.
+  induction fuel as [|k IH]; intros n; cbn [notify_name_change].
+  { intros F w o w' HF HK HL E. inversion E; subst. split; [lia|]. intros _. eapply L_ext; [|exact HL]. intros x; unfold dadd, d0; lia. }
+  apply led_nbind; [apply neutral_the_node|intros p].
+  change true with (true && true). eapply led_bind0 with (p1 := dsum).
+  - generalize (pn_refs p) as l. induction l as [|[r nm] rest IHl]; [apply led_ret_eq; reflexivity|].
+    intros F w o w' HF HK HL E.
+    unfold bind at 1 in E. cbn [the_ref gets] in E.
+    destruct (0 <? fr_refs (get_ref (w_st w) r))%Z eqn:Elive; [|exact (IHl F w o w' HF HK HL E)].
+    apply Z.ltb_lt in Elive. unfold bind at 1 in E. rewrite incref_run in E.
+    assert (HL2 : L (dadd (d1 r) F) (set_refs_of (w_st w) r (refsZ (w_st w) r + 1))).
+    { eapply L_ext; [|apply (L_incref_live _ _ r HL); unfold refsZ; lia]. intros x; unfold dadd, d0; lia. }
+    assert (Hrest : led K (match fr_parent (get_ref (w_st w) r) with
+                           | None => panic
+                           | Some pr => pfr <- the_ref pr ;;
+                                        backend (mkCall MRenamed (fr_file (get_ref (w_st w) r)) [nm] (Some (fr_file pfr)) [] []) ;;
+                                        hs <- (fix refs (l : list (refid * string)) : M (list refid) :=
+                                                 match l with
+                                                 | [] => ret []
+                                                 | (r, nm) :: rest =>
+                                                     fr <- the_ref r ;;
+                                                     if (0 <? fr_refs fr)%Z then
+                                                       incref r ;;
+                                                       match fr_parent fr with
+                                                       | None => panic
+                                                       | Some pr =>
+                                                           pfr <- the_ref pr ;;
+                                                           backend (mkCall MRenamed (fr_file fr) [nm] (Some (fr_file pfr)) [] []) ;;
+                                                           hs <- refs rest ;;
+                                                           ret (r :: hs)
+                                                       end
+                                                     else refs rest
+                                                 end) rest ;;
+                                        ret (r :: hs)
+                           end)%m (d1 r) (fun hs => dsum hs) true).
+    { destruct (fr_parent (get_ref (w_st w) r)) as [pr|].
+      - apply led_nbind'; [apply neutral_the_ref|apply nonneg_d1|intros pfr].
+        apply led_nbind'; [apply neutral_backend|apply nonneg_d1|intros _].
+        change true with (true && true). eapply led_bind0.
+        + eapply led_conseq; [apply (led_frame K _ d0 dsum true (d1 r) IHl (nonneg_d1 r))| | |auto]; [intros x; unfold dadd, d0; lia|reflexivity].
+        + intros hs. apply led_ret_eq. intros x. cbn. unfold dadd. lia.
+      - intros F0 w0 o0 w0' HF0 HK0 HL0 E0. inversion E0; subst. split; [lia|]. intros _.
+        eapply L_drop_own; [apply nonneg_d1|exact HF0|exact HL0]. }
+    match type of E with _ ?W = _ => destruct (Hrest F W o w' HF HK HL2 E) as [N2 R2] end. split; [cbn in N2; exact N2|exact R2].
+  - intros h1. change true with (true && true). eapply led_bind0 with (p1 := fun h2 => dadd (dsum h2) (dsum h1)).
+    + eapply led_conseq; [apply (led_frame K _ d0 dsum true (dsum h1))| | |auto].
+      * generalize (pn_kids p) as l. induction l as [|[nm c] rest IHl]; [apply led_ret_eq; reflexivity|].
+        change true with (true && true). eapply led_bind0; [apply IH|intros a].
+        change true with (true && true). eapply led_bind0 with (p1 := fun b => dadd (dsum b) (dsum a)).
+        -- eapply led_conseq; [apply (led_frame K _ d0 dsum true (dsum a) IHl (nonneg_dsum a))| | |auto]; [intros x; unfold dadd, d0; lia|reflexivity].
+        -- intros b. apply led_ret_eq. intros x. rewrite dsum_app. unfold dadd. lia.
+      * apply nonneg_dsum.
+      * intros x; unfold dadd, d0; lia.
+      * reflexivity.
+    + intros h2. apply led_ret_eq. intros x. rewrite dsum_app. unfold dadd. lia.
+Qed.
+
+Lemma led_dec_all K l : led K (dec_all l) (dsum l) (fun _ => d0) true.
+Proof.
+  induction l as [|r t IH]; cbn [dec_all dsum]; [apply led_ret|].
+  change true with (true && true). eapply (led_bind K (dec_ref_ r) _ (d1 r) (dsum t) (fun _ => d0) (fun _ => dsum t)).
+  - apply led_dec_ref_.
+  - intros _. exact IH.
+  - apply nonneg_dsum.
+  - intros a x. unfold d0. lia.
+Qed.
+
 Lemma rename_child_to_eq f old target new :
   rename_child_to f old target new =
   (ffr <- the_ref f ;;
@@ -1270,7 +1358,7 @@ Lemma rename_child_to_eq f old target new :
    mark_child_deleted (fr_node tfr) new ;;
    o <- remove_with_name (fr_node ffr) old (Some (rename_fn target (fr_node tfr) (fr_file tfr) new)) ;;
    match o with
-   | Some c => add_path_node_for (fr_node tfr) new c ;; fuel <- gets node_fuel ;; notify_name_change fuel c
+   | Some c => add_path_node_for (fr_node tfr) new c ;; fuel <- gets node_fuel ;; held <- notify_name_change fuel c ;; dec_all held
    | None => ret tt
    end)%m.
 Proof. reflexivity. Qed.
@@ -1288,9 +1376,9 @@ Proof.
     + intros K' r Hn' Hle Hr. apply led_rename_fn; [exact Hr|specialize (Hle target); lia].
     + intros K' Hn' Hle. apply led_neutral0. apply neutral_rwn_tail.
   - intros o. destruct o as [c|]; [|apply led_ret].
-    apply led_neutral0.
-    apply neutral_bind; [apply neutral_add_path_node_for|intros _].
-    apply neutral_bind; [apply neutral_gets|intros fuel; apply neutral_notify_name_change].
+    apply led_nbind; [apply neutral_add_path_node_for|intros _].
+    apply led_nbind; [apply neutral_gets|intros fuel].
+    change true with (true && true). eapply led_bind0; [apply led_notify_name_change|intros held; apply led_dec_all].
 Qed.
 
 Definition is_rename (m : tmsg) : bool := match m with Trename _ _ _ | Trenameat _ _ _ _ => true | _ => false end.
